@@ -49,7 +49,7 @@ func hEvsEq(a, b []Event) bool {
 }
 
 func h02Term() string {
-	return []string{"xterm-256color", "linux", "vt220", "screen", "wy50", "vt52"}[vsymChoice("term", vsymParam("terms", 1))]
+	return []string{"xterm-256color", "wy50", "linux", "vt220", "screen", "vt52"}[vsymChoice("term", vsymParam("terms", 1))]
 }
 
 // H02_keys: for every built-in terminal description, every key sequence it defines,
